@@ -475,6 +475,9 @@ def sweep_javadoc():
         for pre in ('', ';\n', '}\n', '/** old */\n', '/** other */ x;\n  '):
             for sep in ('', ' ', '\n  ', '\r\n', ' /* c */ ', ' // c\n'):
                 cases.append((pre + '/**' + w + '*/' + sep, w))
+    for between in (' ', ' // c\n', '/* c */', '\n// c\n', ' // c\n // d\n'):
+        for code in ('x;', 'x,', 'x;\n', 'int x = 1;\n  ', 'x; // tail\n'):
+            cases.append(('/** a */' + between + code, None))
     cases += [('/** a */ x;', None), ('/* a */', None), (';', None), ('', None), ('/**é*/', 'é'), ('/**/', None), ('x /** y', None)]
     n, bad = 0, []
     for text, want in cases:
